@@ -64,6 +64,23 @@ CLAIMED = {
                     'iteration of run_event shows the woken thread exits.',
             'note': OPLEVEL + 'Trusted: Thread.join/cancel_events(C11)/LockingDeque(C16) contracts, fair scheduling.',
             'technique': TECH},
+    'C18': {'text': 'per-wrapper transparency contracts (wrapped callable runs exactly once with the same arguments, result '
+                    'unchanged, only instrumentation fields written, no definedness failure) for _spy_on on all hosts and '
+                    'event kinds, the dispatch/start_at stacks, the live-output wrappers and ActiveObject.start_at.',
+            'note': "Trusted: core contracts as seen by the wrappers (proved by C01-C03/C23; the log summary of a step by composition of the _spy_on contract, C02's offer protocol and the core frame), deque/list contracts, functools.wraps; user code does not touch instrumentation fields.", 'technique': TECH},
+    'C19': {'text': '_spy_on verified line by line for every host and event kind; the core is shown never to write a log; '
+                    'step framing (cleared before, appended to the full spy after, START first) verified on the wrappers.',
+            'note': "Trusted: core contracts as seen by the wrappers (proved by C01-C03/C23; the log summary of a step by composition of the _spy_on contract, C02's offer protocol and the core frame), deque/list contracts, functools.wraps; user code does not touch instrumentation fields.", 'technique': TECH},
+    'C20': {'text': 'trace wrapper verified around the core contract: one record exactly for a transition, none for handled '
+                    'or ignored events, one top->start record from start_at; loop invariant for is_signal_hooked.',
+            'note': "Trusted: core contracts as seen by the wrappers (proved by C01-C03/C23; the log summary of a step by composition of the _spy_on contract, C02's offer protocol and the core frame), deque/list contracts, functools.wraps; user code does not touch instrumentation fields." + ' Handlers answer client events with TRAN/HANDLED/UNHANDLED/SUPER.', 'technique': TECH},
+    'C21': {'text': 'the four live-output wrappers verified around an abstract step with arbitrary (possibly repeating) clock '
+                    'readings: trace callback exactly once per new record, spy callback once per line in order.',
+            'note': "Trusted: core contracts as seen by the wrappers (proved by C01-C03/C23; the log summary of a step by composition of the _spy_on contract, C02's offer protocol and the core frame), deque/list contracts, functools.wraps; user code does not touch instrumentation fields." + ' The writer thread of ActiveObject (FIFO queue) is assumed.', 'technique': TECH},
+    'C23': {'text': 'state_name/state_fn post-conditions of start_at and dispatch on every host (plain core over the tree '
+                    'theory, instrumented stacks around the core contract), of _spy_on, of the queries on spy-decorated '
+                    'charts, and of current_state().',
+            'note': "Trusted: core contracts as seen by the wrappers (proved by C01-C03/C23; the log summary of a step by composition of the _spy_on contract, C02's offer protocol and the core frame), deque/list contracts, functools.wraps; user code does not touch instrumentation fields.", 'technique': TECH},
     'C25': {'text': 'the registry as an insertion-ordered map with an index; class invariant (index and key sequence agree, '
                     'number == position, ten built-ins first) established by __init__ and preserved by append, __getattr__ '
                     'and Event.__init__, which bind a new name to len+1 and never change a binding; name_for_signal inverts '
